@@ -118,6 +118,9 @@ func (e *Eval) registerSkillCB(c *ast.CallExpr, env *Env) (Obj, error) {
 	}
 	target := objs[0].(*number).ival
 	fn := objs[1].(*funcval)
+	if len(fn.Args) > len(objs) {
+		return nil, fmt.Errorf("invalid number of params for callback, expected at most %v got %v", len(objs), len(fn.Args))
+	}
 
 	node := TargetNode{
 		target: key.TargetID(target),
@@ -143,6 +146,9 @@ func (e *Eval) registerUltCB(c *ast.CallExpr, env *Env) (Obj, error) {
 	}
 	target := objs[0].(*number).ival
 	fn := objs[1].(*funcval)
+	if len(fn.Args) > len(objs) {
+		return nil, fmt.Errorf("invalid number of params for callback, expected at most %v got %v", len(objs), len(fn.Args))
+	}
 
 	node := TargetNode{
 		target: key.TargetID(target),
